@@ -170,11 +170,12 @@ type scenario struct {
 	mux      int
 	ops      int
 	noCache  bool // DisableCache: the dedicated session turns tracking on itself
+	rehook   bool // the dedicated holder calls SetPubSubHooks after SetOnInvalidations, before it releases the client
 	seed     int64
 }
 
 func (sc scenario) String() string {
-	return fmt.Sprintf("#%d mode=%s holder=%s end=%s queue=%s chunk=%v mux=%d ops=%d nocache=%v", sc.idx, sc.mode, sc.holder, sc.end, sc.queue, sc.chunk, sc.mux, sc.ops, sc.noCache)
+	return fmt.Sprintf("#%d mode=%s holder=%s end=%s queue=%s chunk=%v mux=%d ops=%d nocache=%v", sc.idx, sc.mode, sc.holder, sc.end, sc.queue, sc.chunk, sc.mux, sc.ops, sc.noCache) + fmt.Sprintf(" rehook=%v", sc.rehook)
 }
 
 func trackingOptions(mode string) []string {
@@ -544,6 +545,12 @@ func runScenario(run *mon.Run, sc scenario) (res result) {
 	case "release":
 		if dc != nil {
 			tRelease = mon.Stamp()
+			shape := "callback-installed"
+			if sc.rehook {
+				// pub/sub hooks installed after the invalidation callback (they replace the whole hook set)
+				shape = "callback-replaced-by-later-SetPubSubHooks"
+				dc.SetPubSubHooks(rueidis.PubSubHooks{OnMessage: func(rueidis.PubSubMessage) {}})
+			}
 			release()
 			release = nil
 			// the next holder of the pooled connection
@@ -579,10 +586,10 @@ func runScenario(run *mon.Run, sc scenario) (res result) {
 			if seenNext {
 				res.reuseChecked++
 				if !offBeforeNext {
-					run.Violation("tracking-not-turned-off-before-reuse", "release|"+sc.mode, wit(map[string]any{"conn": dedID, "next_holder_uid": u, "conn_log_after_release": connRecv(s.Log(), dedID, tRelease)}))
+					run.Violation("tracking-not-turned-off-before-reuse", "release|"+shape+"|"+sc.mode, wit(map[string]any{"conn": dedID, "next_holder_uid": u, "conn_log_after_release": connRecv(s.Log(), dedID, tRelease)}))
 				}
 				if si, ok := s.Session(dedID); ok && si.Tracking {
-					run.Violation("tracking-not-turned-off-before-reuse", "session-state|"+sc.mode, wit(map[string]any{"conn": dedID, "session": si}))
+					run.Violation("tracking-not-turned-off-before-reuse", "session-state|"+shape+"|"+sc.mode, wit(map[string]any{"conn": dedID, "session": si}))
 				}
 			}
 		}
@@ -730,7 +737,7 @@ func TestC27(t *testing.T) {
 	modes := []string{"optin", "bcast", "prefix", "optout"}
 	holders := []string{"shared", "dedicated", "both"}
 	ends := []string{"kill", "killbusy", "release", "close"}
-	n := run.N(120, 4000)
+	n := run.N(400, 6000)
 	rng := run.Rand("scenarios")
 	var tot result
 	for i := 0; i < n; i++ {
@@ -743,6 +750,7 @@ func TestC27(t *testing.T) {
 			sc.noCache = rng.Intn(2) == 0
 			sc.mux = -1
 		}
+		sc.rehook = sc.holder != "shared" && sc.end == "release" && rng.Intn(4) == 0
 		if sc.mode == "optout" && sc.noCache {
 			sc.noCache = false
 		}
